@@ -322,7 +322,7 @@ def check_dimchange_object(res, obj, v, ssys, flavor, layer, viol, done):
 
 
 # ------------------------------------------------------------------------ array backends
-def check_arrays(res: Result, dim, ssys, backend, tier, only=None):
+def check_arrays(res: Result, dim, ssys, backend, tier, only=None, shape2d=False):
     vs = [v for v in _vectors(dim, tier) if not v.has("near_axis") and not v.has("fast")]
     rows, objs_ok = [], []
     for v in vs:
@@ -331,18 +331,24 @@ def check_arrays(res: Result, dim, ssys, backend, tier, only=None):
             rows.append(tuple(float(x) for x in s))
     if not rows:
         return
+    if shape2d:
+        rows = rows[: len(rows) // 2 * 2]
+        if len(rows) < 4:
+            return
     n = len(rows)
     for flavor in ("generic", "momentum"):
-        if backend == "NP":
+        if backend == "NP" and shape2d:
+            arr = B.make_np(ssys, flavor, rows).reshape(2, n // 2)  # a 2-D array of vectors: results keep the shape, element by element
+        elif backend == "NP":
             arr = B.make_np(ssys, flavor, rows)
         else:
             arr = B.make_ak(ssys, flavor, rows, "jagged")
         objs = [B.make_obj(ssys, flavor, r) for r in rows]
         in_rows = B.result_rows(arr)
-        base = {"sys": list(ssys), "flavor": flavor, "backend": backend, "rows": n}
+        base = {"sys": list(ssys), "flavor": flavor, "backend": backend, "rows": n, "shape2d": shape2d}
 
         def viol(clause, call, msg):
-            res.violation(f"{clause}|{call}|{L.sysname(ssys)}|{backend}", msg, dict(base, call=call))
+            res.violation(f"{clause}|{call}|{L.sysname(ssys)}|{backend}" + ("|2-D" if shape2d else ""), msg, dict(base, call=call))
 
         def kwval(f, arrayform, variant="pos", base=None):
             val = kw_value(f, variant, base)
@@ -352,7 +358,7 @@ def check_arrays(res: Result, dim, ssys, backend, tier, only=None):
             vals = [val] + [(base if base is not None else (KW_L[f] if f in KW_L else KW_T[f])) + 0.125 * i for i in range(1, n)]
             vals = [float(x) for x in vals]
             if backend == "NP":
-                return np.array(vals), vals
+                return (np.array(vals).reshape(2, n // 2) if shape2d else np.array(vals)), vals
             return ak.unflatten(ak.Array(vals), ak.num(arr, axis=1)) if arr.layout.purelist_depth > 1 else ak.Array(vals), vals
 
         for name, tsys, kwmap in TARGETS:
@@ -537,6 +543,8 @@ def run_shard(shard, tier):
         res.sample({"backend": backend, "sys": list(ssys), "vectors": len(vs), "calls_per_vector": len(TARGETS), "example": list(vs[0].comps)})
     else:
         check_arrays(res, dim, ssys, backend, tier)
+        if backend == "NP":
+            check_arrays(res, dim, ssys, backend, tier, shape2d=True)
         if dim < 4:
             check_arrays_dtype(res, dim, ssys, backend)
     return res
@@ -550,7 +558,7 @@ def replay(case):
         check_arrays_dtype(res, len(case["sys"]) + 1, tuple(case["sys"]), case["backend"])
         return res
     if "backend" in case:
-        check_arrays(res, len(case["sys"]) + 1, tuple(case["sys"]), case["backend"], "thorough", only=only)
+        check_arrays(res, len(case["sys"]) + 1, tuple(case["sys"]), case["backend"], "thorough", only=only, shape2d=bool(case.get("shape2d")))
     else:
         v = Vec("v", case["v"], set())
         check_object(res, v, tuple(case["sys"]), case["flavor"], case["layer"], "thorough", only=only)
